@@ -270,6 +270,7 @@ func neverReturns(c *EngCase, ctl func(w *world)) (bool, int) {
 func runEngineWith(c *EngCase, ctl func(w *world), fair bool) (*world, *sched.Sched) {
 	w := &world{c: c}
 	s := &sched.Sched{MaxSteps: 30000}
+	s.YieldOnUnlock = sched.UnlockYields(c.Seed)
 	s.Choose = sched.ListChooser(c.Decisions, sched.MixedChooser(c.Seed, s))
 
 	if c.Decisions != nil {
